@@ -185,7 +185,8 @@ def do_run(ids, tier, all_checks, props_extra):
     try:
       shutil.copytree("/repo/audiolazy", os.path.join(tmp, "audiolazy"),
                       ignore=shutil.ignore_patterns("__pycache__"))
-      rc, out = sh(["patch", "-p1", "-s", "-i", os.path.join(d, "patch.diff")],
+      rc, out = sh(["patch", "-p1", "-s", "--no-backup-if-mismatch", "-i",
+                    os.path.join(d, "patch.diff")],
                    cwd=tmp)
       if rc:
         rows.append((sid, meta["property"], "PATCH-FAILS", out[-200:]))
